@@ -19,7 +19,7 @@ from vf.oracles import cv
 
 LEVEL = "exploration"
 RULE = (
-    "brew() with decision_function learners {linear, svc} x folds 2..6 x test_fdr {0.01,0.05,0.2} x 1..2 files x "
+    "brew() with decision_function learners {linear, svc} x folds 2..6 x test_fdr {0.01,0.05,0.2,0.25,0.5} (the last two exactly representable, so that q == threshold occurs) x 1..2 files x "
     "text/Parquet x workers {1,3}; per (file, fold): exact affine relation, slope>0, anchors; then the same "
     "run repeated with test_fdr placed between the smallest and largest per-fold minimum target q-value (some "
     "fold accepts nothing) must raise. Non-trivial = >= 2 folds with >= 5 accepted targets each; distinct = case parameters."
@@ -35,8 +35,12 @@ CASE_TIMEOUT = 600
 def plan(seed, tier):
     n = 40 if tier == "quick" else 3000
     cases = []
+    prng = core.seed_seq(seed, "C11", "plan")
     for i in range(n):
-        cases.append({"class": "calibration", "index": i, "folds": int(2 + i % 5), "test_fdr": [0.01, 0.05, 0.2][i % 3],
+        # 0.25 and 0.5 are exactly representable in float32, the precision in which tdc stores (d+1)/t: only there
+        # can a target's q-value *equal* the threshold
+        cases.append({"class": "calibration", "index": i, "folds": int(2 + i % 5),
+                      "test_fdr": float(prng.choice([0.01, 0.05, 0.2, 0.25, 0.5])),
                       "learner": ["linear", "svc"][(i // 3) % 2], "nfiles": [1, 2][(i // 4) % 2],
                       "fmt": ["pin", "parquet"][(i // 5) % 2], "workers": [1, 3][(i // 2) % 2], "cost": 3})
     return cases
@@ -106,6 +110,8 @@ def run_case(case):
                 a = raw[acc].min()
                 m = np.median(raw[~t])
                 expected[key] = ((raw - a) / (a - m), a, m, int(acc.sum()))
+                if np.any(q[acc] == np.float32(case["test_fdr"])):
+                    res.count("folds_with_q_equal_to_threshold")
             else:
                 expected[key] = None
         must_refuse = any(v is None for v in expected.values()) and len(expected) > 0
